@@ -91,8 +91,60 @@ func (z *Zipper) ComputeDiff() (*ZipperArtifacts, error) {
 
 	z.propagate()
 	z.matchTerminators()
+	z.unmatchInconsistentBranches()
 
 	return z.isolateDivergence(), nil
+}
+
+// unmatchInconsistentBranches drops the pairing of two conditional branches when
+// the code they branch to was not paired accordingly.  The matching above follows
+// data flow only and is blind to control flow: after exchanging the bodies of an
+// if/else every instruction still finds a partner.  A branch whose true (false)
+// successor holds instructions that were matched into a block other than the
+// partner's true (false) successor is reported as removed and added instead.
+func (z *Zipper) unmatchInconsistentBranches() {
+	// the new block that received the matched instructions of an old block;
+	// unknown when nothing in it was matched or the matches are spread over blocks.
+	// Jumps carry no operands, their pairing says nothing about the blocks.
+	image := func(b *ssa.BasicBlock) *ssa.BasicBlock {
+		var img *ssa.BasicBlock
+		for _, instr := range b.Instrs {
+			if _, isJump := instr.(*ssa.Jump); isJump {
+				continue
+			}
+			partner, ok := z.instrMap[instr]
+			if !ok {
+				continue
+			}
+			if img != nil && img != partner.Block() {
+				return nil
+			}
+			img = partner.Block()
+		}
+		return img
+	}
+
+	var inconsistent []*ssa.If
+	for old, partner := range z.instrMap {
+		ifOld, ok := old.(*ssa.If)
+		if !ok {
+			continue
+		}
+		ifNew, ok := partner.(*ssa.If)
+		if !ok || len(ifOld.Block().Succs) != 2 || len(ifNew.Block().Succs) != 2 {
+			continue
+		}
+		for k := 0; k < 2; k++ {
+			if img := image(ifOld.Block().Succs[k]); img != nil && img != ifNew.Block().Succs[k] {
+				inconsistent = append(inconsistent, ifOld)
+				break
+			}
+		}
+	}
+	for _, ifOld := range inconsistent {
+		delete(z.revInstrMap, z.instrMap[ifOld])
+		delete(z.instrMap, ifOld)
+	}
 }
 
 func (z *Zipper) alignAnchors() error {
